@@ -195,4 +195,105 @@ theorem translate_short (m : ShMap) (c : Bytes) (h : c.length < 7) : m.translate
 theorem rewrite_empty (s : Bytes) : ({} : ShMap).rewrite s = s :=
   rewrite_selfMapped {} selfMapped_empty s
 
+/-! ### translation keeps the length of a message -/
+
+/-- every recorded new id has 40 digits (what the tool itself writes into commit-map of a SHA-1 repository) -/
+def WF40 (m : ShMap) : Prop := ∀ e ∈ m.lookup, ∀ v, e.2 = some v → v.length = 40
+
+/-- the decidable form -/
+def wf40b (m : ShMap) : Bool := m.lookup.all fun e => match e.2 with | some v => v.length == 40 | none => true
+
+theorem wf40_of_b (m : ShMap) (h : wf40b m = true) : WF40 m := by
+  intro e he v hv
+  have := (List.all_eq_true.mp h) e he
+  simp only [hv, beq_iff_eq] at this
+  exact this
+
+theorem get_wf40 (m : ShMap) (h : WF40 m) (k v : Bytes) (hg : m.get k = some (some v)) : v.length = 40 := by
+  unfold ShMap.get at hg
+  split at hg
+  · rename_i e he
+    have hmem := List.mem_of_find?_eq_some he
+    simp only [Option.some.injEq] at hg
+    exact h e hmem v hg
+  · cases hg
+
+theorem lowerAll_length (s : Bytes) : (lowerAll s).length = s.length := by simp [lowerAll]
+
+/-- a candidate is replaced by something of its own length -/
+theorem subst_length (m : ShMap) (h : WF40 m) (c : Bytes) (hc : c.length ≤ 40) : (m.subst c).length = c.length := by
+  unfold ShMap.subst
+  split
+  · rename_i new ht
+    split
+    · rfl
+    · unfold ShMap.translate at ht
+      split at ht
+      · cases ht
+      · split at ht
+        · rename_i h40
+          dsimp only at ht
+          split at ht
+          · rename_i r hg
+            subst ht
+            have := get_wf40 m h _ _ hg
+            have h40' : c.length = 40 := by simpa using h40
+            omega
+          · cases ht
+        · unfold ShMap.lookupPrefix at ht
+          dsimp only at ht
+          split at ht
+          · split at ht
+            · rename_i newFull hg
+              have hv := get_wf40 m h _ _ hg
+              simp only [Option.some.injEq] at ht
+              subst ht
+              simp only [List.length_take, lowerAll_length]
+              omega
+            · cases ht
+          · cases ht
+  · rfl
+
+theorem isCandidate_le (w : Bytes) (h : isCandidate w = true) : w.length ≤ 40 := by
+  simp only [isCandidate, Bool.and_eq_true, decide_eq_true_eq] at h
+  exact h.2
+
+theorem rewriteAux_length (m : ShMap) (h : WF40 m) : ∀ (f g : Nat), g ≤ f → ∀ s, (m.rewriteAux g s).length = s.length := by
+  intro f
+  induction f with
+  | zero =>
+    intro g hg s
+    have : g = 0 := by omega
+    subst this
+    simp [ShMap.rewriteAux]
+  | succ f ih =>
+    intro g hg s
+    cases g with
+    | zero => simp [ShMap.rewriteAux]
+    | succ g =>
+      cases s with
+      | nil => simp [ShMap.rewriteAux]
+      | cons b r =>
+        simp only [ShMap.rewriteAux]
+        have hw := takeWord_append (b :: r).length (b :: r)
+        generalize takeWord (b :: r).length (b :: r) = p at hw
+        obtain ⟨w, rest⟩ := p
+        simp only at hw ⊢
+        have hl : w.length + rest.length = r.length + 1 := by
+          have := congrArg List.length hw
+          simpa using this
+        split
+        · simp [ih g (by omega) r]
+        · rw [List.length_append, ih (g - (w.length - 1)) (by omega) rest]
+          split
+          · rename_i hc
+            rw [subst_length m h w (isCandidate_le w hc)]
+            simp only [List.length_cons]; omega
+          · simp only [List.length_cons]; omega
+
+/-- **translating cited ids never changes the length of a message** (new ids of 40 digits: an abbreviation of n digits is
+    replaced by the first n digits of the new id, a full id by the full new id) -/
+theorem rewrite_length (m : ShMap) (h : WF40 m) (s : Bytes) : (m.rewrite s).length = s.length :=
+  rewriteAux_length m h s.length s.length (Nat.le_refl _) s
+
 end Frrs
